@@ -39,7 +39,7 @@ func VF_C04_LiveReaderUnderWriter(unsafe int) {
 	vfAssert(err == nil && w != nil, "OpenWriter succeeds on an empty directory")
 	p1, p2 := vfByte("payload"), vfByte("payload")
 	vfAssume(p1 != p2)
-	vfAssert(w.Batch(vfStepBatch(vfStep{0, 1, p1})) == nil, "first Batch succeeds")
+	vfAssert(w.Batch(vfStepBatch(vfStep{op: 0, id: 1, payload: p1})) == nil, "first Batch succeeds")
 	var wg sync.WaitGroup
 	wg.Add(1)
 	go func() {
@@ -55,7 +55,7 @@ func VF_C04_LiveReaderUnderWriter(unsafe int) {
 		_ = r.Close()
 		wg.Done()
 	}()
-	vfAssert(w.Batch(vfStepBatch(vfStep{0, 1, p2})) == nil, "second Batch succeeds")
+	vfAssert(w.Batch(vfStepBatch(vfStep{op: 0, id: 1, payload: p2})) == nil, "second Batch succeeds")
 	wg.Wait()
 	vfAssert(w.Close() == nil, "Close succeeds")
 	for _, c := range dir.closers {
